@@ -291,6 +291,9 @@ def hGadget (folded : Bool) : Handler := fun args res => do
 def typeSize : String → Except String (Nat × Bool)
   | "u8" => pure (1, false) | "u16" => pure (2, false) | "u32" => pure (4, false) | "u64" => pure (8, false)
   | "i8" => pure (1, true) | "i16" => pure (2, true) | "i32" => pure (4, true) | "i64" => pure (8, true)
+  -- defined (named) integer types of the harness with these underlying types
+  | "nu8" => pure (1, false) | "nu16" => pure (2, false) | "nu32" => pure (4, false) | "nu64" => pure (8, false)
+  | "ni8" => pure (1, true) | "ni16" => pure (2, true) | "ni32" => pure (4, true) | "ni64" => pure (8, true)
   | t => throw s!"bad type {t}"
 
 end Driver
